@@ -873,6 +873,8 @@ func runC14(c *Ctx) {
 	ruleNoStateBeforeRefusal(c, "C14.12")
 	c14CreateAtomic(c, "C14.13")
 	ruleLogLengthBound(c, "C14.14")
+	ruleUpdateValuesLoopInvariant(c, "C14.15")
+	rulePrecheckSameRows(c, "C14.16")
 }
 
 func c14RowValidationFirst(c *Ctx, rule string) {
